@@ -278,7 +278,10 @@ def h_cancel(c, kind='download', init=('QUEUED',), op='abort', target=0, cycles=
         state_ok = all(x is not tgt for x in w.manager.transfers) if op == 'remove' else \
             tgt.state.VALUE == (ST.ABORTED if op == 'abort' else ST.PAUSED)
         snap = _snapshot(tgt)
-        marks = (len(w.net.attempts), len(w.net.sent), len(w.net.connects), len(w.net.file_writes))
+        def file_activity():
+            """file connection attempts and writes made by tasks of the target transfer"""
+            return [x for x in w.net.connects + w.net.file_writes if ft.transfer_of_task(loop, x['task']) is tgt]
+        marks = (len(w.net.attempts), len(w.net.sent), len(file_activity()))
         pending_attempts = [a for a in w.net.attempts if a['status'] == 'pending' and any(_mentions(m, tgt) for m in a['messages'])]
         phase['after_return'] = True
         loop.advance(200)
@@ -303,8 +306,7 @@ def h_cancel(c, kind='download', init=('QUEUED',), op='abort', target=0, cycles=
         c.check(not new_attempts and not continued, 'no_connection_attempt_after_return', sig=sig,
                 info={'new': len(new_attempts), 'continued': len(continued)})
         if up:
-            c.check(len(w.net.connects) == marks[2] and len(w.net.file_writes) == marks[3],
-                    'no_file_connection_after_return', sig=sig)
+            c.check(len(file_activity()) == marks[2], 'no_file_connection_after_return', sig=sig)
         # (3) no field changes (symbolic counters / sizes / times: decided by z3)
         for nm, eq in changed:
             c.check(eq, 'no_field_change_after_return', sig=sig, info={'field': nm})
@@ -362,7 +364,8 @@ META = {
     'bounds': {'quick': {'step_shapes': 'U, D, UU (same/different user), UD, DD', 'scenario_transfers': '1..2 for one peer', 'peer_sends': 2,
                          'extra_cycles': 1, 'replies': 1, 'loop_steps': 90, 'clock_after_return': '200 s'},
                'thorough': {'step_shapes': 'all shapes of <= 3 transfers (owner patterns among uploads), UUUU x 2, UUUD',
-                            'scenario_transfers': '1..2 for one peer, every initial state, both targets', 'peer_sends': 3, 'extra_cycles': 2,
+                            'scenario_transfers': '1..2 for one peer, every initial state, both targets', 'peer_sends': '3 (two uploads: 2)',
+                            'extra_cycles': '2 (uploads: 1)',
                             'replies': 1, 'loop_steps': 140, 'outcomes': 'downloads: plus immediate error', 'clock_after_return': '200 s'}},
     'outside': ['more management cycles / sends / transfers than the bound', 'real connection code (connect race, indirect connection: C10/C11)',
                 'messages initiated by the peer after the call (PeerTransferRequest for an aborted download is answered with a refusal - '
@@ -405,7 +408,8 @@ def jobs(tier):
         upsc = dict(cycles=1, sends=2, outcomes=['ok', 'slow_err'])
     else:
         sc = dict(cycles=2, sends=3, outcomes=['ok', 'slow_ok', 'slow_err', 'err'], max_steps=140)
-        upsc = dict(cycles=2, sends=3, outcomes=['ok', 'slow_ok', 'slow_err'], max_steps=140)
+        upsc = dict(cycles=1, sends=3, outcomes=['ok', 'slow_ok', 'slow_err'], max_steps=140)
+        upsc2 = dict(cycles=1, sends=2, outcomes=['ok', 'slow_ok', 'slow_err'], max_steps=140)
     req = ['op_done', 'settled_after_return']
     for op in ('abort', 'pause', 'remove'):
         for st in ('QUEUED', 'INCOMPLETE', 'FAILED'):
@@ -426,5 +430,5 @@ def jobs(tier):
         if not q:
             for target in (0, 1):
                 out.append({'harness': 'cancel', 'fn': h_cancel,
-                            'params': dict(kind='upload', init=['QUEUED', 'QUEUED'], op=op, target=target, **upsc), 'requires': req})
+                            'params': dict(kind='upload', init=['QUEUED', 'QUEUED'], op=op, target=target, **upsc2), 'requires': req})
     return out
